@@ -463,10 +463,19 @@ namespace ST
             (format.float_class == ST::float_fixed) ? 'f' : 'g';
         format_buffer[end] = 0;
 
-        char out_buffer[64];
-        int format_size = snprintf(out_buffer, sizeof(out_buffer), format_buffer, value);
+        char stack_buffer[64];
+        int format_size = snprintf(stack_buffer, sizeof(stack_buffer), format_buffer, value);
         ST_ASSERT(format_size > 0, "Your libc doesn't support reporting format size");
-        ST_ASSERT(static_cast<size_t>(format_size) < sizeof(out_buffer), "Format buffer too small");
+
+        // Large values in fixed notation and large precisions need more room
+        ST::char_buffer heap_buffer;
+        const char *out_buffer = stack_buffer;
+        if (static_cast<size_t>(format_size) >= sizeof(stack_buffer)) {
+            heap_buffer.allocate(static_cast<size_t>(format_size));
+            (void)snprintf(heap_buffer.data(), static_cast<size_t>(format_size) + 1,
+                           format_buffer, value);
+            out_buffer = heap_buffer.data();
+        }
 
         if (format.minimum_length > format_size) {
             if (format.alignment == ST::align_left) {
